@@ -16,7 +16,7 @@ EXPLANATION = (
     "consumers; it must pass a sanitiser (sort*, collection into an unordered or canonically ordered container such as dcbor::Map / "
     "dcbor::Set / BTreeMap / HashSet) or an order-insensitive consumer (any/all/count/.., or add_assertion*, whose result is order "
     "independent by C07.1) before any ordered sink (Vec collect/push, CBORCase::Array); remaining ordered flows need a table entry "
-    "with a reason. Does not decide equality of dCBOR encodings for equal leaf values of each type.")
+    "with a reason. C07.5: no add_* entry point other than the two core adders returns self unchanged on a test of the receiver's content. Does not decide equality of dCBOR encodings for equal leaf values of each type.")
 TRUSTED = ['dcbor::Map / dcbor::Set iterate in key-encoding order', 'sort* sorts']
 FLOORS = {'C07.1': 4, 'C07.2': 4, 'C07.3': 2, 'C07.4': 4, 'C07.1/C04.5': 3, 'C07.1/C04.3': 2, 'C07.1/C01.2/node': 1}
 P1 = ('param', 1)
@@ -168,3 +168,44 @@ def check(ctx):
             ctx.ok('C07.4/control', pc[0].path, 'positive control: dcbor From<HashSet<T>> for CBOR is recognised as a hasher-order -> Array flow (and is not reachable from this crate)')
         else:
             ctx.fail('C07.4/control', pc[0].path, 'positive control failed: the ORDER rule no longer recognises the known raw HashSet->Array flow', key='C07.4|control')
+
+
+_check_c07_core = check
+
+
+def check(ctx):
+    _check_c07_core(ctx)
+    # C07.5: the only test of the receiver's CONTENT that may turn an add into "return self unchanged" is the digest-duplicate test of
+    # the two core adders (C04.3). A convenience adder (add_type, add_attachment, add_salt*, add_signature*, add_recipient*, ..) that
+    # returns self on its own query of the receiver (has_type, a predicate lookup, ..) makes the result depend on HOW equal assertions
+    # were added before (a decorated 'isA' assertion hides the plain one), i.e. on assembly order.
+    F = ctx.F
+    P1 = ('param', 1)
+    CORE = ('add_optional_assertion_envelope', 'add_optional_assertion_envelope_salted')
+    n = 0
+    for b in F.bodies:
+        if not (b.name.startswith('add_') and b.impl_self and b.impl_self.endswith('::Envelope') and '{closure' not in b.path) or b.name in CORE:
+            continue
+        n += 1
+        tb = TermBuilder(F, b)
+        def is_self(t):
+            t = strip_sites(detry(t))
+            if t[0] == 'agg' and t[2] == 'Ok' and t[3]:
+                t = strip_sites(detry(t[3][0]))
+            c = m_call(t, name='clone')
+            return t == P1 or (c is not None and strip_sites(c[0]) == P1)
+        for bi, si, t in ret_defs(tb):
+            if not is_self(t):
+                continue
+            deciding = []
+            for sb, dt in switch_on(tb, b, lambda d: True):
+                if bi not in b.reachable(sb) or not b.dominates(sb, bi):
+                    continue
+                sd = strip_sites(dt)
+                if contains(sd, lambda y: isinstance(y, tuple) and y and y[0] == 'call' and any(strip_sites(detry(a)) == P1 for a in y[2])):
+                    deciding.append(sd)
+            if deciding:
+                ctx.fail('C07.5', ctx.site(b, bi, si), '%s returns self unchanged on a test of the receiver\'s content (%s): whether the assertion is added depends on what was added before, '
+                         'beyond the digest-duplicate rule' % (b.name, fmt(deciding[0])[:160]), key='C07.5|' + b.name)
+    ctx.need('C07.5', n >= 8, 'add_* entry points of Envelope')
+    ctx.ok('C07.5', '-', '%d add_* entry points: none returns self on a query of the receiver (only the two core adders test the receiver, by digest: C04.3)' % n, sample=str(n))
